@@ -142,7 +142,7 @@ module.exports = {
   build,
   requests,
   check,
-  rule: 'leaf = directive sequence of length 0..3 over 4 directive spellings x look-alike statement x 14 scope kinds x {no instrumentation, hook without temporaries, hook with temporaries} x other instrumented function present/absent; non-trivial = file reported modified (something was inserted); distinct by program text',
+  rule: 'leaf = directive sequence of length 0..3 over 4 directive spellings x look-alike statement (5 quick / 9 thorough, incl. a string behind an empty statement or a block) x 14 scope kinds x {no instrumentation, hook without temporaries, hook with temporaries} x other instrumented function present/absent; non-trivial = file reported modified (something was inserted); distinct by program text',
   explanation: 'full product enumeration; oracle = leading directive lists of the program and of every function body in AST(content) vs AST(input) (raw ASTs, scopes paired in traversal order) + strictness probes executed in V8 on both sides',
   assumptions: ['a directive is an ExpressionStatement whose expression is an un-parenthesised string literal; compared by raw text between the quotes']
 }
